@@ -1,6 +1,8 @@
 (* What a write program puts on the wire, stated from the API documentation alone: every write
-   operation that reported success contributed exactly its message.  The abstract writer below
-   knows nothing about buffers, frames or masking. *)
+   operation that reported success contributed exactly its message; a message writer left open
+   is completed by the next NextWriter / WriteMessage / WritePreparedMessage (whose own result
+   does not tell how that implicit Close went: see [flush] below); a Write that fails abandons
+   its message.  The abstract writer below knows nothing about buffers, frames or masking. *)
 Require Import WS.Base.Bytes WS.Spec.Frame.
 
 Inductive aop :=
@@ -26,13 +28,20 @@ Definition astep (negotiated:bool) (s:ast) (o:aop) (res:N) : ast :=
   let s := if (res =? 6) || (res =? 7) then {| a_open := a_open s; a_comp := a_comp s; a_out := a_out s; a_dead := true |} else s in
   let closes (ty:N) (s:ast) : ast :=
     if ok && (ty =? 8) then {| a_open := a_open s; a_comp := a_comp s; a_out := a_out s; a_dead := true |} else s in
-  (* a new NextWriter / WriteMessage implicitly completes the writer left open *)
+  (* a new NextWriter / WriteMessage implicitly completes the writer left open.  The error of
+     that implicit Close is discarded by the call, so its outcome is not read off [res]:
+     - a control-type message longer than 125 bytes is refused (errInvalidControlFrame, dropped
+       silently): nothing is sent;
+     - any other message is sent; if it is a close message the connection is closed for writing
+       from then on (the call itself then reports errCloseSent, i.e. [res] <> 0). *)
   let flush (s:ast) : ast :=
     match a_open s with
     | Some (t, c, d) =>
         if a_dead s then {| a_open := None; a_comp := a_comp s; a_out := a_out s; a_dead := true |}
-        else closes t {| a_open := None; a_comp := a_comp s;
-                         a_out := a_out s ++ [{| s_ty := t; s_comp := c; s_data := d; s_complete := true |}]; a_dead := a_dead s |}
+        else if (8 <=? t) && (125 <? blen d) then {| a_open := None; a_comp := a_comp s; a_out := a_out s; a_dead := a_dead s |}
+        else {| a_open := None; a_comp := a_comp s;
+                a_out := a_out s ++ [{| s_ty := t; s_comp := c; s_data := d; s_complete := true |}];
+                a_dead := (t =? 8) |}
     | None => s
     end in
   match o with
@@ -45,8 +54,12 @@ Definition astep (negotiated:bool) (s:ast) (o:aop) (res:N) : ast :=
       let s := flush s in
       if ok then {| a_open := Some (ty, negotiated && a_comp s && is_data ty, []); a_comp := a_comp s; a_out := a_out s; a_dead := a_dead s |} else s
   | AWrite d =>
+      (* a Write that fails ends the writer (flushFrame calls endMessage on every error): the
+         message is abandoned, a later Close or implicit close sends nothing *)
       match a_open s with
-      | Some (t, c, acc) => if ok then {| a_open := Some (t, c, acc ++ d); a_comp := a_comp s; a_out := a_out s; a_dead := a_dead s |} else s
+      | Some (t, c, acc) =>
+          if ok then {| a_open := Some (t, c, acc ++ d); a_comp := a_comp s; a_out := a_out s; a_dead := a_dead s |}
+          else {| a_open := None; a_comp := a_comp s; a_out := a_out s; a_dead := a_dead s |}
       | None => s
       end
   | AClose =>
